@@ -38,13 +38,13 @@ __CPROVER_ensures(sq_live==__CPROVER_old(sq_live)-(self->isinit?1:0))
 /* static SU_vector SU_vector::make_aligned(unsigned dim, bool zero_fill) -> result through *ret */
 void su_make_aligned(struct SU_vector* ret, unsigned dim, bool zero_fill)
 __CPROVER_requires(__CPROVER_w_ok(ret, sizeof(*ret)) && sq_thrown==0 && sq_live>=0 && sq_live<900)
-__CPROVER_requires(dim<=SQ_MAXD)                    /* storage_cache[dim] must exist; which dimensions are *rejected* is C14 */
-__CPROVER_assigns(*ret, sq_thrown, sq_live, sq_alloc_budget, __CPROVER_object_whole(sq_blk_off), __CPROVER_object_whole(sq_blk_lib))
-__CPROVER_ensures(sq_thrown==0 || sq_thrown==2)
-__CPROVER_ensures(sq_thrown==2 ==> sq_live==__CPROVER_old(sq_live))
+__CPROVER_assigns(*ret, sq_thrown, sq_live, sq_alloc_budget)
+__CPROVER_ensures(sq_thrown==0 || sq_thrown==1 || sq_thrown==2)
+__CPROVER_ensures(sq_thrown!=2 ==> ((sq_thrown==1) == (dim==1 || dim>SQ_MAXD)))            /* C14 C13: the aligned factory rejects dimension 1 and above 6 */
+__CPROVER_ensures(sq_thrown!=0 ==> sq_live==__CPROVER_old(sq_live))                        /* C16 C15 C13: nothing leaked when it fails */
 __CPROVER_ensures(sq_thrown==0 ==> (ret->dim==dim && ret->size==dim*dim && ret->isinit && !ret->isinit_d && ret->ptr_offset<=SQ_HEADROOM
                    && sq_live==__CPROVER_old(sq_live)+1
-                   && __CPROVER_is_fresh(ret->components, dim*dim*sizeof(double))
+                   && __CPROVER_is_fresh(ret->components, (dim*dim>0?dim*dim:1)*sizeof(double))
                    && sq_blk_lib[SQ_OBJ(ret->components)]==1 && sq_blk_off[SQ_OBJ(ret->components)]==ret->ptr_offset))
 __CPROVER_ensures(sq_thrown==0 && zero_fill && gk<dim*dim ==> ret->components[gk]==0.0)
 {
@@ -73,7 +73,7 @@ __CPROVER_ensures(sq_thrown!=0 || (SQ_SAME(g_cfm_re, __CPROVER_old(m_real.data[(
 #define EXPECT_NegProjector ((GI==GJ && GI>=d-ii)?1.0:0.0)
 #define FACTORY_COMMON(name) \
 __CPROVER_requires(__CPROVER_w_ok(ret, sizeof(*ret)) && sq_thrown==0 && g_cfm_calls==0 && sq_live>=0 && sq_live<900) \
-__CPROVER_assigns(*ret, sq_thrown, sq_live, sq_alloc_budget, __CPROVER_object_whole(sq_blk_off), __CPROVER_object_whole(sq_blk_lib), g_cfm_calls, g_cfm_dim, g_cfm_re, g_cfm_im, g_cfm_target) \
+__CPROVER_assigns(*ret, sq_thrown, sq_live, sq_alloc_budget, g_cfm_calls, g_cfm_dim, g_cfm_re, g_cfm_im, g_cfm_target) \
 __CPROVER_ensures(sq_thrown==0 || sq_thrown==1 || sq_thrown==2) \
 __CPROVER_ensures(sq_thrown!=0 ==> sq_live==__CPROVER_old(sq_live))                      /* nothing leaked on an exception */ \
 __CPROVER_ensures(sq_thrown==0 ==> (ret->dim==d && ret->size==d*d && ret->isinit && !ret->isinit_d && sq_live==__CPROVER_old(sq_live)+1 \
@@ -138,7 +138,7 @@ __CPROVER_ensures(sq_thrown==0 && GI<d && GJ<d ==> g_cfm_re==EXPECT_NegProjector
 }
 void Generator(struct SU_vector* ret, unsigned int d, unsigned int ii)
 __CPROVER_requires(__CPROVER_w_ok(ret, sizeof(*ret)) && sq_thrown==0 && sq_live>=0 && sq_live<900)
-__CPROVER_assigns(*ret, sq_thrown, sq_live, sq_alloc_budget, __CPROVER_object_whole(sq_blk_off), __CPROVER_object_whole(sq_blk_lib))
+__CPROVER_assigns(*ret, sq_thrown, sq_live, sq_alloc_budget)
 __CPROVER_ensures(sq_thrown==0 || sq_thrown==1 || sq_thrown==2)
 __CPROVER_ensures(sq_thrown!=2 ==> ((sq_thrown==1) == (d==1 || d>SQ_MAXD || ii>=d*d)))   /* (bad_alloc aside) rejected iff ... */
 __CPROVER_ensures(sq_thrown!=0 ==> sq_live==__CPROVER_old(sq_live))
@@ -151,6 +151,7 @@ __CPROVER_ensures(sq_thrown==0 && gk<d*d ==> ret->components[gk]==((gk==ii)?1.0:
 #define H1(f)   void h_##f(void){ struct SU_vector r; unsigned d; f(&r,d); __CPROVER_assert(0,"REACH end of harness"); }
 #define H2(f)   void h_##f(void){ struct SU_vector r; unsigned d, i; f(&r,d,i); __CPROVER_assert(0,"REACH end of harness"); }
 H2(Projector) H1(Identity) H2(PosProjector) H2(NegProjector) H2(Generator)
-void h_su_make_aligned(void){ struct SU_vector r; unsigned d; bool z; su_make_aligned(&r,d,z); __CPROVER_assert(0,"REACH end of harness"); }
+void h_su_make_aligned(void){ struct SU_vector r; unsigned d; bool z; sq_thrown=0; sq_live=nondet_int(); __CPROVER_assume(sq_live>=0 && sq_live<800); su_make_aligned(&r,d,z); __CPROVER_assert(0,"REACH end of harness"); }
 void h_su_dtor(void){ struct SU_vector r; int k=nondet_int(); sq_live=nondet_int(); __CPROVER_assume(sq_live>=0 && sq_live<900); unsigned d=nondet_unsigned(); __CPROVER_assume(k>=0&&k<=2); sq_mk_valid(&r,k,d); su_dtor(&r); __CPROVER_assert(0,"REACH end of harness"); }
 void h_su_ctor_default(void){ struct SU_vector r; su_ctor_default(&r); __CPROVER_assert(0,"REACH end of harness"); }
+
